@@ -218,6 +218,13 @@ func skeleton(x Inst, c Call) Ev {
 		"fp": []string{"", "", ""}}
 }
 
+// guard runs harness code that calls into the library outside a logged call (building a state, enumerating
+// states) under the watchdog and recover(): a hang there ends the process with a timeout event naming `op`
+func guard(fam, kind, op string, f func()) callInfo {
+	return invoke(Ev{"fam": fam, "kind": kind, "cfg": Ev{}, "op": op, "a": Call{}.A(), "rs": 1, "pre": 0, "post": 0, "r": []any{},
+		"panic": false, "pmsg": "", "out": 0, "cmps": 0, "timeout": false, "mut": false, "obsbad": true, "fp": []string{"", "", ""}}, f)
+}
+
 func replay(u Universe, path []Call) Inst {
 	x := u.New()
 	for _, c := range path {
